@@ -250,10 +250,10 @@ func CompareLex(s1 string, s2 string) int {
 	if s1 == s2 {
 		return 0
 	}
-	if strings.Contains(s1, s2) {
+	if strings.HasPrefix(s1, s2) {
 		return 1
 	}
-	if strings.Contains(s2, s1) {
+	if strings.HasPrefix(s2, s1) {
 		return -1
 	}
 
